@@ -150,7 +150,7 @@ def trace_check(module, cfg, trace_path, work, tag, timeout=900, heap="8g"):
 
 # ------------------------------------------------------------------ dot graphs
 
-REC_TOKEN = re.compile(r'\s*(\[|\]|\|->|,|<<|>>|"(?:[^"\\]|\\.)*"|-?\d+|TRUE|FALSE|[A-Za-z_][A-Za-z0-9_]*)')
+REC_TOKEN = re.compile(r'\s*(\[|\]|\{|\}|\|->|,|<<|>>|"(?:[^"\\]|\\.)*"|-?\d+|TRUE|FALSE|[A-Za-z_][A-Za-z0-9_]*)')
 
 
 def parse_tla_value(s):
@@ -173,6 +173,14 @@ def parse_tla_value(s):
                     pos[0] += 1
             pos[0] += 1
             return rec
+        if t == "{":
+            arr = []
+            while toks[pos[0]] != "}":
+                arr.append(val())
+                if toks[pos[0]] == ",":
+                    pos[0] += 1
+            pos[0] += 1
+            return arr
         if t == "<<":
             arr = []
             while toks[pos[0]] != ">>":
